@@ -69,6 +69,15 @@ PositionsOf(s, a) == {k \in DOMAIN s.dels : k[3] = a}
 PositionsOn(s, v, a) == {k \in DOMAIN s.dels : k[2] = v /\ k[3] = a}
 AssetDenoms(s) == DOMAIN s.assets
 
+\* K3b: the asset's share total is zero while tokens remain (every validator holding it was slashed by 100 %)
+OrphanedTotal(s, a) == a \in DOMAIN s.assets /\ IsZero(s.assets[a].vshares) /\ IsPos(s.assets[a].total)
+\* K8: validator v holds shares of asset a worth at least one token while fewer than one delegator share is recorded on it
+\* (the value was left behind by a slash of a redelegation destination or by dust clearing); new delegator shares are then
+\* issued 1:1 and the newcomer receives that value
+OrphanedOnValidator(s, v, a) ==
+  /\ a \in DOMAIN s.assets
+  /\ IsZero(TruncInt(Get(Info(s, v).dshares, a)))
+  /\ ~IsZero(TruncInt(ValTokens(s.assets[a], Info(s, v), a)))
 UnbEntries(s) == {<<k, i>> : k \in DOMAIN s.unbQ, i \in 1..0} \cup UNION {{<<k, i>> : i \in DOMAIN s.unbQ[k]} : k \in DOMAIN s.unbQ}
 UnbSum(s, a) == BSum({x \in UnbEntries(s) : s.unbQ[x[1]][x[2]].a = a}, LAMBDA x : s.unbQ[x[1]][x[2]].bal)
 
@@ -138,7 +147,12 @@ C02_State(s) ==
 \*          (root cause K2); zero for small stakes
 \* stuck:   rewards withdrawn from x/distribution for a validator without delegator shares: they stay in the module account
 \*          (root cause K9)
-GhostInit == [unb |-> <<>>, red |-> <<>>, stall |-> FALSE, dep |-> <<>>, slashed |-> FALSE, k2 |-> NoCoins, stuck |-> NoCoins]
+\* ent:     reward entitlement ledger (C13): position -> reward denom -> rational amount accrued for it and not yet claimed
+\* taint:   positions whose token value was changed by a slash or a take-rate deduction since rewards accrued for them
+\*          (C13 does not speak about those; C12 does)
+\* nacc:    position -> number of accruals since its last claim (index resolution allowance)
+GhostInit == [unb |-> <<>>, red |-> <<>>, stall |-> FALSE, dep |-> <<>>, slashed |-> FALSE, k2 |-> NoCoins, stuck |-> NoCoins,
+              ent |-> <<>>, taint |-> {}, nacc |-> <<>>]
 LedgerOfState(s) ==
   LET xs == SortBy(UnbEntries(s), LAMBDA x : <<x[1][1], DelIdx(x[1][2]), x[2]>>)
   IN  [i \in DOMAIN xs |-> [d |-> s.unbQ[xs[i][1]][xs[i][2]].d, v |-> s.unbQ[xs[i][1]][xs[i][2]].v, a |-> s.unbQ[xs[i][1]][xs[i][2]].a,
@@ -155,6 +169,66 @@ SlashValid(rec) == IsSlash(rec) /\ IsPos(SlashFraction(rec)) /\ BLe(SlashFractio
 
 SlashLedger(unb, v, f, now) ==
   [i \in DOMAIN unb |-> IF unb[i].v = v /\ unb[i].due >= now THEN [unb[i] EXCEPT !.amt = BSub(@, TruncInt(DMulInt(f, @)))] ELSE unb[i]]
+
+\* the state in which end-of-block changes weights: after the maturity sweeps, asset initialisation and the take rate
+BeforeDecay(pre, rec) ==
+  IF rec.ev # "EndBlock" THEN pre
+  ELSE LET r2 == CompleteUnbondings(CompleteRedelegations(pre))
+           r4 == TakeRate(InitAssets(r2.s))
+       IN  r4.s
+\* ---- C13 entitlement ledger ----
+RatCoinsAdd(f, g) == [k \in DOMAIN f \cup DOMAIN g |-> RAdd(IF k \in DOMAIN f THEN f[k] ELSE RZero, IF k \in DOMAIN g THEN g[k] ELSE RZero)]
+\* positions that settle their rewards inside this event (the asset must have started, else the claim returns early)
+Claimers(pre, rec) ==
+  LET e == rec.args
+      raw == CASE ~rec.res.ok -> {}
+               [] rec.ev = "Claim" -> {<<e.d, e.v, e.a>>}
+               [] rec.ev = "Delegate" -> {<<e.d, e.v, e.a>>}
+               [] rec.ev = "Undelegate" -> {<<e.d, e.v, e.a>>}
+               [] rec.ev = "Redelegate" -> {<<e.d, e.src, e.a>>, <<e.d, e.dst, e.a>>}
+               [] OTHER -> {}
+  IN  {k \in raw : k \in DOMAIN pre.dels /\ k[3] \in DOMAIN pre.assets /\ Started(pre.assets[k[3]], pre.now)}
+\* exact pro-rata split of coins received for validator v among the positions on it, in state s
+SplitFor(s, v, coins) ==
+  LET info == Info(s, v)
+      el == PoolEligible(s, info)
+      wgt(a) == RMul(Rat(s.assets[a].weight, ONE), RMul(ValTokRat(s, v, a), Rat("1", s.assets[a].total)))
+      tot == RSumSet(el, wgt)
+      ks == {k \in DOMAIN s.dels : k[2] = v /\ k[3] \in el}
+      share(k) == IF IsZero(tot[1]) \/ IsZero(ValTokRat(s, v, k[3])[1]) THEN RZero
+                  ELSE RMul(RMul(wgt(k[3]), <<tot[2], tot[1]>>), RMul(PosValueRat(s, k), <<ValTokRat(s, v, k[3])[2], ValTokRat(s, v, k[3])[1]>>))
+  IN  [k \in ks |-> [rd \in DOMAIN coins |-> RMul(RInt(coins[rd]), share(k))]]
+\* rewards withdrawn from x/distribution for validator v in this step (they are indexed at that moment)
+Withdrawn(pre, post, v) ==
+  LET d == CoinsSub(Pending(pre, v), Pending(post, v)) IN [k \in {k \in DOMAIN d : IsPos(d[k])} |-> d[k]]
+SettledVals(pre, post) == {v \in DOMAIN pre.env.vals : HasMod(pre, v) /\ v \in DOMAIN post.env.vals /\ ~IsEmptyMap(Withdrawn(pre, post, v))}
+\* the state in which the step indexes them: messages settle first; end-of-block settles after its sweeps and the take rate
+SettleState(pre, rec) == IF rec.ev = "EndBlock" THEN BeforeDecay(pre, rec) ELSE pre
+\* ledger after the indexing of this step and before its claims
+EntMid(gh, pre, rec, post) ==
+  LET at == SettleState(pre, rec)
+      vs == {v \in SettledVals(pre, post) : v \in DOMAIN at.vals /\ ~IsEmptyMap(Info(at, v).dshares) /\ ~PoolWeightless(at, v)}
+      adds == [v \in vs |-> SplitFor(at, v, Withdrawn(pre, post, v))]
+      keys == DOMAIN gh.ent \cup UNION {DOMAIN adds[v] : v \in vs}
+  IN  [k \in keys |-> LET base == IF k \in DOMAIN gh.ent THEN gh.ent[k] ELSE <<>>
+                       IN  IF \E v \in vs : k \in DOMAIN adds[v] THEN RatCoinsAdd(base, adds[CHOOSE v \in vs : k \in DOMAIN adds[v]][k]) ELSE base]
+EntNext(gh, pre, rec, post) ==
+  LET cl == Claimers(pre, rec)
+      mid == EntMid(gh, pre, rec, post)
+  IN  [k \in DOMAIN post.dels |-> IF k \in DOMAIN mid /\ k \notin cl THEN mid[k] ELSE <<>>]
+ChargedAssets(pre, rec, post) == IF rec.ev = "EndBlock" THEN {a \in DOMAIN pre.assets \cap DOMAIN post.assets : pre.assets[a].total # post.assets[a].total} ELSE {}
+TaintNext(gh, pre, rec, post) ==
+  LET cl == Claimers(pre, rec)
+      \* a slash re-scales every validator's tokens of the slashed validator's assets, which also shifts the split between the
+      \* assets of each validator: every position is affected; a take-rate deduction affects the positions of the charged asset
+      hitAssets == IF SlashValid(rec) /\ ValExists(pre, rec.args.v) /\ ~IsEmptyMap(Info(pre, rec.args.v).vshares) THEN DOMAIN post.assets ELSE ChargedAssets(pre, rec, post)
+      \* a value jump through the known pricing defects (K3b, K8) taints the asset as well
+      jumpy == {a \in DOMAIN post.assets : OrphanedTotal(post, a) \/ (a \in DOMAIN pre.assets /\ OrphanedTotal(pre, a))}
+  IN  {k \in (gh.taint \ cl) \cup {k \in DOMAIN post.dels : k[3] \in hitAssets \cup jumpy} : k \in DOMAIN post.dels}
+NaccNext(gh, pre, rec, post) ==
+  LET cl == Claimers(pre, rec)
+      vs == SettledVals(pre, post)
+  IN  [k \in DOMAIN post.dels |-> (IF k \in DOMAIN gh.nacc /\ k \notin cl THEN gh.nacc[k] ELSE 0) + (IF k[2] \in vs /\ k \notin cl THEN 1 ELSE 0)]
 
 GhostNext(gh, pre, rec, post) ==
   LET e == rec.args
@@ -185,7 +259,8 @@ GhostNext(gh, pre, rec, post) ==
                                              /\ rec.ev \notin {"Accrue", "AccrueFees"}}
       stuck0 == IF rec.ev = "EndBlock" THEN [k \in DOMAIN gh.stuck \ {BondDenom} |-> gh.stuck[k]] ELSE gh.stuck     \* stray staking coins are burned
       stuck2 == FoldSet(LAMBDA v, acc : CoinsAdd(acc, Pending(pre, v)), stuck0, strand)
-  IN  [unb |-> unb2, red |-> red1, stall |-> gh.stall, dep |-> dep2, slashed |-> slashed2, k2 |-> k22, stuck |-> stuck2]
+  IN  [unb |-> unb2, red |-> red1, stall |-> gh.stall, dep |-> dep2, slashed |-> slashed2, k2 |-> k22, stuck |-> stuck2,
+       ent |-> EntNext(gh, pre, rec, post), taint |-> TaintNext(gh, pre, rec, post), nacc |-> NaccNext(gh, pre, rec, post)]
 
 -----------------------------------------------------------------------------
 (* C02 / C07: unbondings *)
@@ -326,15 +401,6 @@ C07_Red_Step(pre, rec, post, gh) ==
 
 -----------------------------------------------------------------------------
 (* C04 position isolation *)
-\* K3b: the asset's share total is zero while tokens remain (every validator holding it was slashed by 100 %)
-OrphanedTotal(s, a) == a \in DOMAIN s.assets /\ IsZero(s.assets[a].vshares) /\ IsPos(s.assets[a].total)
-\* K8: validator v holds shares of asset a worth at least one token while fewer than one delegator share is recorded on it
-\* (the value was left behind by a slash of a redelegation destination or by dust clearing); new delegator shares are then
-\* issued 1:1 and the newcomer receives that value
-OrphanedOnValidator(s, v, a) ==
-  /\ a \in DOMAIN s.assets
-  /\ IsZero(TruncInt(Get(Info(s, v).dshares, a)))
-  /\ ~IsZero(TruncInt(ValTokens(s.assets[a], Info(s, v), a)))
 C04_Step(pre, rec, post) ==
   LET e == rec.args
       a == e.a
@@ -488,12 +554,6 @@ C14_Step(pre, rec, post) ==
 
 \* a weight change (decay or governance) settles every validator at the old weight and leaves a snapshot
 WeightChanged(pre, post) == {a \in DOMAIN pre.assets \cap DOMAIN post.assets : pre.assets[a].weight # post.assets[a].weight}
-\* the state in which end-of-block changes weights: after the maturity sweeps, asset initialisation and the take rate
-BeforeDecay(pre, rec) ==
-  IF rec.ev # "EndBlock" THEN pre
-  ELSE LET r2 == CompleteUnbondings(CompleteRedelegations(pre))
-           r4 == TakeRate(InitAssets(r2.s))
-       IN  r4.s
 HistClose(h1, h2) == DOMAIN h1 = DOMAIN h2 /\ \A k \in DOMAIN h1 : BLe(BAbs(BSub(h1[k], h2[k])), "2")
 C14_Settle(pre, rec, post) ==
   IF ~(rec.ev \in {"EndBlock", "GovUpdate"} /\ rec.res.ok) \/ WeightChanged(pre, post) = {} THEN {}
@@ -573,6 +633,48 @@ C16_Step(pre, rec, post) ==
        \cup (IF rec.ev = "GovCreate" /\ rec.res.ok
              THEN Check("C16", e.a \notin DOMAIN pre.assets, "a denom was whitelisted twice (the existing asset was overwritten)")
              ELSE {})
+
+-----------------------------------------------------------------------------
+(* C13 reward entitlement: what a claim pays against the ledger *)
+C13_Step(pre, rec, post, gh) ==
+  LET cl == Claimers(pre, rec)
+      e == rec.args
+      mid == EntMid(gh, pre, rec, post)
+      \* rewards that reached the pool in this step (withdrawn for validators that have someone to split them among)
+      inflow(rd) == BSum({v \in DOMAIN pre.env.vals : HasMod(pre, v) /\ v \in DOMAIN post.env.vals /\ ~IsEmptyMap(Info(pre, v).dshares) /\ ~PoolWeightless(pre, v)},
+                         LAMBDA v : BMax("0", BSub(Get(Pending(pre, v), rd), Get(Pending(post, v), rd))))
+      paid(rd) == BSub(BAdd(Get(pre.bank.rewards, rd), inflow(rd)), Get(post.bank.rewards, rd))
+      rds == DOMAIN pre.bank.rewards \cup DOMAIN post.bank.rewards \cup UNION {DOMAIN mid[k] : k \in cl \cap DOMAIN mid}
+                \cup UNION {DOMAIN Pending(pre, v) : v \in DOMAIN pre.env.vals}
+      entOf(k, rd) == IF k \in DOMAIN mid /\ rd \in DOMAIN mid[k] THEN mid[k][rd] ELSE RZero
+      \* the claim multiplies the index by the position's whole-token balance: the entitlement scales with balance / exact value
+      scaled(k, rd) == LET val == PosValueRat(pre, k) IN
+                         IF IsZero(val[1]) \/ ~BIsNum(pre.bals[k]) THEN RZero ELSE RMul(entOf(k, rd), RMul(RInt(pre.bals[k]), <<val[2], val[1]>>))
+      expected(rd) == RSumSet(cl, LAMBDA k : scaled(k, rd))
+      segs == BSum(cl, LAMBDA k : BFromInt(2 + Cardinality({x \in DOMAIN pre.snaps : x[1] = k[3] /\ x[2] = k[2] /\ x[3] >= pre.dels[k].lastH})))
+      \* resolution of the 18-digit index: per accrual one ulp per token, amplified by the conditioning of the weight split
+      \* (an asset whose staked reward weight on the validator is tiny is known only to 10^-18 absolute)
+      minW(k) == LET el == PoolEligible(pre, Info(pre, k[2]))
+                     w(a) == RMul(Rat(pre.assets[a].weight, ONE), RMul(ValTokRat(pre, k[2], a), Rat("1", pre.assets[a].total)))
+                     ws == {w(a) : a \in el}
+                 IN  IF ws = {} THEN RInt("1") ELSE CHOOSE x \in ws : \A y \in ws : RLe(x, y)
+      nac(k) == BFromInt(2 + (IF k \in DOMAIN gh.nacc THEN gh.nacc[k] ELSE 0))
+      res == BSum(cl, LAMBDA k : BAdd("1", BAdd(CeilDiv(BMul(BMul(IF BIsNum(pre.bals[k]) THEN pre.bals[k] ELSE "0", nac(k)), "2"), ONE),
+                                               IF IsZero(minW(k)[1]) THEN "0"
+                                               ELSE RCeil(RMul(RMul(RSumSet(rds, LAMBDA rd : scaled(k, rd)), RInt(BMul("8", nac(k)))), <<minW(k)[2], BMul(minW(k)[1], ONE)>>)))))
+      grown == {k \in DOMAIN post.dels : k[3] \in DOMAIN post.assets /\ Started(post.assets[k[3]], post.now)
+                                          /\ (k \notin DOMAIN pre.dels \/ BLt(pre.dels[k].shares, post.dels[k].shares))}
+  IN  UNION {Check("C13", IsEmptyMap(Pending(pre, k[2])) \/ IsEmptyMap(Pending(post, k[2])) \/ ~HasMod(pre, k[2]),
+                   "stake arrived in position " \o ToString(k) \o " while rewards for " \o k[2] \o " were pending in the distribution module and they were not settled first: the new stake will share rewards that accrued before it arrived") : k \in grown}
+      \cup
+      IF cl = {} \/ cl \cap gh.taint # {} \/ (\E k \in cl : OrphanedTotal(pre, k[3])) THEN {}
+      ELSE UNION {
+             Check("C13", RLe(RInt(paid(rd)), RAdd(expected(rd), RInt(res))),
+                   rec.ev \o " by " \o e.d \o " paid " \o paid(rd) \o " " \o rd \o " in rewards; the positions' accrued entitlement is " \o RFloor(expected(rd)) \o
+                   " (rewards that accrued before the stake arrived, or a second claim, must pay nothing)")
+             \cup Check("C13", RLe(RSub(expected(rd), RInt(BAdd(segs, res))), RInt(paid(rd))),
+                   rec.ev \o " by " \o e.d \o " paid only " \o paid(rd) \o " " \o rd \o " in rewards; the positions' accrued entitlement is " \o RFloor(expected(rd)))
+           : rd \in rds}
 
 -----------------------------------------------------------------------------
 (* C17 end-of-block never fails *)
@@ -712,6 +814,7 @@ Judge(pre, rec, post, gh, gh2) ==
   \cup C09_Step(pre, rec, post) \cup C14_Step(pre, rec, post) \cup C14_Settle(pre, rec, post)
   \cup C15_Step(pre, rec, post, gh) \cup C16_Step(pre, rec, post) \cup C17_Step(pre, rec, post)
   \cup C10_Step(pre, rec, post) \cup C11_Step(pre, rec, post, gh, gh2) \cup C18_Step(pre, rec, post)
+  \cup C13_Step(pre, rec, post, gh)
 
 \* coverage tags: which property antecedents were exercised non-trivially at this step
 Covers(pre, rec, post, gh, gh2) ==
@@ -725,6 +828,9 @@ Covers(pre, rec, post, gh, gh2) ==
   \cup (IF rec.res.ok /\ rec.ev \in {"Delegate", "Undelegate", "Redelegate", "Claim"} THEN {rec.ev} ELSE {})
   \cup (IF rec.ev \in GovEvents THEN {IF rec.res.ok THEN "gov-accept" ELSE "gov-reject"} ELSE {})
   \cup (IF rec.ev = "EndBlock" THEN {"endblock"} ELSE {})
+  \cup (IF Claimers(pre, rec) # {} /\ Claimers(pre, rec) \cap gh.taint = {}
+           /\ (\E k \in Claimers(pre, rec) : k \in DOMAIN EntMid(gh, pre, rec, post) /\ \E rd \in DOMAIN EntMid(gh, pre, rec, post)[k] : IsPos(EntMid(gh, pre, rec, post)[k][rd][1]))
+        THEN {"claim-with-entitlement"} ELSE {})
   \cup (IF rec.ev = "ExportImport" THEN {"export-import"} ELSE {})
   \cup (IF \E p \in ProbeSet(rec) : p.kind \in {"delegate", "claim", "exit"} THEN {"probe-liveness"} ELSE {})
   \cup (IF \E p \in ProbeSet(rec) : p.kind = "claimAll" THEN {"probe-claimall"} ELSE {})
